@@ -725,12 +725,12 @@ EXTRA_WIDTHS = [2, 7, 13, 39]
 
 
 def plan(tier, seed):
-    """The parts of the exploration: dict(name, what, cfgs, clocks, opset, depth, split)."""
+    """The parts of the exploration: dict(name, what, cfgs, clocks, opset, depth)."""
     T = tier == "thorough"
     P = []
 
-    def part(name, what, cfgs, clocks=CLOCKS, opset="all", depth=2, split=False):
-        P.append(dict(name=name, what=what, cfgs=cfgs, clocks=tuple(clocks), opset=opset, depth=depth, split=split))
+    def part(name, what, cfgs, clocks=CLOCKS, opset="all", depth=2):
+        P.append(dict(name=name, what=what, cfgs=cfgs, clocks=tuple(clocks), opset=opset, depth=depth))
 
     maxima = [0, 1, 3, 10] + ([50, 200] if T else [])
     widths = [1, 4, 28] + ([40] if T else [])
@@ -755,28 +755,25 @@ def plan(tier, seed):
                for mn in (0, 0.1)]
         b3 += [C(3, 4, "default", o, 0.1, v) for v in (1, 2) for o in ("ansi", "plain")]
         b3 += [C(3, 4, "default", "quiet", 0.1, 0), C(0, 4, "msg", "ansi", 0.1), C(0, 4, "two", "section", 0.1)]
-        part("broad-3", "covering subset of configurations; all operations x all clock advances", b3, depth=3, split=True)
+        part("broad-3", "covering subset of configurations; all operations x all clock advances", b3, depth=3)
     # ---- layout: all operations, clock advances {0, 200 ms} around the 100 ms throttle (0 = suppressed, 200 = drawn)
     lay = [C(m, w, f, o, 0.1) for f in ("msg", "two") for o in OUTS3 for (m, w) in [(3, 4), (0, 4), (10, 28)]]
     part("layout", "message formats x {ansi,plain,section}; all operations x clock advances {0,200} ms, min 0.1", lay,
-         clocks=(0, 200), depth=4 if T else 3, split=T)
-    if T:
-        lay2 = [C(3, 4, f, o, 0.1) for f in ("msg", "two") for o in OUTS3]
-    else:
-        lay2 = [C(3, 4, "two", "ansi", 0.1), C(3, 4, "msg", "section", 0.1), C(3, 4, "two", "plain", 0.1)]
-    part("layout-deep", "message formats x {ansi,plain,section} at max 3 width 4 (quick: two-line/ansi, message/section, "
-                        "two-line/plain); all operations x clock advances {0,200} ms", lay2, clocks=(0, 200), depth=5 if T else 4, split=True)
+         clocks=(0, 200), depth=4 if T else 3)
+    lay2 = [C(3, 4, f, o, 0.1) for f in ("msg", "two") for o in OUTS3]
+    part("layout-deep", "message formats x {ansi,plain,section} at max 3 width 4; all operations x clock advances {0,200} ms",
+         lay2, clocks=(0, 200), depth=5 if T else 4)
     lay0 = [C(m, 4, f, o, 0) for f in ("msg", "two") for o in OUTS3 for m in (3, 0)]
     part("layout-zero", "message formats, throttle off, no clock advance: all operations", lay0, clocks=(0,),
-         depth=7 if T else 5, split=T)
+         depth=7 if T else 5)
     # ---- timing: the progress operations x every clock advance
     tim = [C(m, 4, "default", o, 0.1) for o in ("ansi", "plain") for m in (3, 10, 0)] + [C(3, 4, "default", "ansi", 0),
                                                                                        C(3, 4, "default", "section", 0.1)]
     part("timing", "start/advance(1)/advance(3)/set_progress(max)/display/finish x all clock advances", tim,
-         opset="progress", depth=6 if T else 4, split=T)
+         opset="progress", depth=6 if T else 4)
     if T:
         part("timing-elapsed", "formats with %elapsed% (exact clock differences): progress operations x all clock advances",
-             [C(3, 4, "default", o, 0.1, v) for v in (1, 2) for o in ("ansi", "plain")], opset="progress", depth=4, split=True)
+             [C(3, 4, "default", o, 0.1, v) for v in (1, 2) for o in ("ansi", "plain")], opset="progress", depth=4)
     return P
 
 
@@ -795,38 +792,17 @@ def main():
     probe()
     parts = plan(rep.tier, rep.seed)
     items = []
-    pre = {}
 
     def add(**kw):
         kw["idx"] = len(items)
         items.append(kw)
 
+    # one share = one (part, configuration): the whole exploration of a configuration is deduplicated in one place
+    # (splitting a configuration by its first operation was measured to cost 4x the transitions)
     for p in parts:
-        pre[p["name"]] = [0, 0]
         for cfg in p["cfgs"]:
-            if not p["split"]:
-                add(kind="bfs", part=p["name"], cfg=cfg, clocks=p["clocks"], opset=p["opset"], prefix=(), depth=p["depth"],
-                    cost=len(make_ops(cfg, p["clocks"], p["opset"])) ** p["depth"])
-                continue
-            # split by first operation: the first level is executed here, its distinct successors become shares
-            spec = Spec(cfg, p["clocks"], p["opset"])
-            seen = {hash(spec.key(spec.init()))}
-            pre[p["name"]][0] += 1
-            for op in spec.ops(None, 0):
-                st = build(cfg)
-                vs = spec.apply(st, op)
-                pre[p["name"]][1] += 1
-                if vs:
-                    for v in vs:
-                        v["case"] = {"cfg": cfg, "history": [list(op)]}
-                    rep.merge(vs)
-                    continue
-                k = hash(spec.key(st))
-                if k in seen:
-                    continue
-                seen.add(k)
-                add(kind="bfs", part=p["name"], cfg=cfg, clocks=p["clocks"], opset=p["opset"], prefix=(op,),
-                    depth=p["depth"] - 1, cost=len(spec.ops(None, 0)) ** (p["depth"] - 1))
+            add(kind="bfs", part=p["name"], cfg=cfg, clocks=p["clocks"], opset=p["opset"], prefix=(), depth=p["depth"],
+                cost=(len(make_ops(cfg, p["clocks"], p["opset"])) * (2 if cfg_cap(cfg) is None else 1)) ** p["depth"])
     # ramps: long single histories (every step of the way to the maximum), all maxima in both tiers
     ramp_cfgs = [C(m, w, "default", o, mn) for m in (0, 1, 3, 10, 50, 200) for w in (4, 28) for o in ("ansi", "plain")
                  for mn in (0, 0.1)]
@@ -851,7 +827,7 @@ def main():
     order = sorted([it for it in items if first_phase(it)], key=lambda it: (-it["cost"], it["idx"]))
     results = par.pmap(run_item, order)
     skipped = 0
-    if rep.violations or any(r["violations"] for r in results):
+    if any(r["violations"] for r in results):
         skipped = len([it for it in items if not first_phase(it)])
     else:
         order = sorted([it for it in items if not first_phase(it)], key=lambda it: (-it["cost"], it["idx"]))
@@ -908,10 +884,8 @@ def main():
                            "and advance(k),finish,display for k in {1,3} x clock advance; ramp: start, advance by 1 or 3 at a "
                            "fixed clock advance until past the maximum, finish: one long history per (max, stride, clock advance); "
                            "max in {0,1,3,10,50,200} x width {4,28} x {ansi,plain} x min {0,0.1}", cfgs=ramp_cfgs,
-                           clocks=CLOCKS, opset="ramp", depth=0, split=False)]:
+                           clocks=CLOCKS, opset="ramp", depth=0)]:
         a = agg.get(p["name"], dict(states=0, transitions=0, unexpanded_at_bound=0, shares_cut_by_violation_cap=0))
-        a["states"] += pre.get(p["name"], [0, 0])[0]
-        a["transitions"] += pre.get(p["name"], [0, 0])[1]
         rep.part(p["name"], what=p["what"], configurations=len(p["cfgs"]), clocks_ms=list(p["clocks"]), opset=p["opset"],
                  depth=p["depth"], alphabet_size=len(make_ops(p["cfgs"][0], p["clocks"], p["opset"])) if p["depth"] else 1,
                  executed=a.get("shares", 0) > 0,
